@@ -171,9 +171,11 @@ LawFails(j, P) ==
               \cup Law(o(2).imports = Quotient(o(1), KeepLen(c(2))).imports, "C09", "limited-imports-are-not-the-quotient")
       [] j.law = "internal" ->       \* two scans that differ only in the external options
               Bind(SameButFor(c(1), c(2), {"ext"}), "internal-binding")
-              \cup LET M == Expected(P, c(1)).internal IN
+              \* internal = at or below module_path (its ancestor packages lie outside module_path: an import of
+              \* one of them is an import of an external module)
+              \cup LET M == {m \in Expected(P, c(1)).internal : Anc(Trunc(c(1).mpath, IF c(1).limit = 0 THEN Len(c(1).mpath) ELSE KeepLen(c(1))), m)} IN
                    Law(InternalPart(o(1), M) = InternalPart(o(2), M), "C10", "external-options-change-the-internal-part")
-                   \cup Law(\A i \in {1, 2} : ~c(i).ext => o(i).modules \subseteq M, "C10", "module-outside-module-path-although-externals-excluded")
+                   \cup Law(\A i \in {1, 2} : ~c(i).ext => o(i).modules \subseteq Expected(P, c(1)).internal, "C10", "module-outside-module-path-although-externals-excluded")
       [] j.law = "verdict" ->        \* the same rule on the full and on the level-limited architecture
               LET e1 == evals[<<j.scans[1], j.rid>>]  e2 == evals[<<j.scans[2], j.rid>>] IN
               Bind(SameButFor(c(1), c(2), {"limit"}) /\ c(1).limit = 0 /\ c(2).limit > 0 /\ e1.rule = e2.rule
